@@ -216,6 +216,56 @@ def r_err(ctx, rule, fns, exceptions=None, err_types=ERR_TYPES):
                     ctx.violate(rule, fn, construct, msg, pt=pt)
             else:
                 ctx.ok(rule, fn, "result of %s is propagated or handled" % P.short(ck), [pt])
+    # errors discarded *wholesale*: an error-dropping function passed as a value (`.map_while(Result::ok)`,
+    # `.filter_map(Result::ok)`), an error-dropping method applied to a Result that is not a local call result (a closure
+    # parameter: `.filter_map(|l| l.ok())`), or an iterator of io::Result flattened (`lines().flatten()`)
+    for fn in fns:
+        examined = set()
+        for b, t in fn.calls():
+            d = t["dest"]
+            if not d["p"] and d["l"] != 0 and result_err(fn.locals[d["l"]]) is not None:
+                examined.add(d["l"])
+        for b, t in fn.calls():
+            pt = P.term_pt(fn, b.idx)
+            ck = callee_skey(t) or ""
+            for a in t["args"]:
+                if a.get("k") == "const" and "fn" in a["c"]:
+                    fk = strip_generics(a["c"]["fn"])
+                    if re.search(r"core::result::Result::(ok|unwrap_or_default|err)$", fk):
+                        ga = a["c"].get("ga", "")
+                        es = [x for x in re.findall(r"[\w:]+(?:::\w+)+", ga) if err_types.match(strip_generics(x))]
+                        if es:
+                            construct = "%s(fn %s)" % (ck.rsplit("::", 1)[-1], fk.rsplit("::", 1)[-1])
+                            n_sites += 1
+                            why = exceptions.get((fn.skey, construct))
+                            if why:
+                                used_exc.add((fn.skey, construct))
+                                ctx.exception(rule, fn.skey, construct, why)
+                            else:
+                                ctx.violate(rule, fn, construct, "every %s of the items is discarded by passing Result::%s to %s: an I/O or decoding "
+                                            "error ends or thins the iteration silently" % (es[0], fk.rsplit("::", 1)[-1], P.short(ck)), pt=pt)
+            if DISCARDERS.search(ck) and not re.search(r"::(is_ok|is_err|iter|into_iter)$", ck) and t["args"]:
+                a = t["args"][0]
+                if a.get("k") in ("copy", "move"):
+                    ty = fn.locals[a["pl"]["l"]] if not a["pl"]["p"] else ""
+                    e = result_err(ty)
+                    src_calls = [s_ for s_ in P.origins(fn, a) if s_["k"] == "call" and not P.TRANSPARENT.search(s_["callee"])]
+                    if e is not None and err_types.match(strip_generics(e)) and not src_calls and any(s_["k"] == "param" for s_ in P.origins(fn, a)):
+                        name = ck.rsplit("::", 1)[-1]
+                        construct = "%s(param)" % name
+                        n_sites += 1
+                        why = exceptions.get((fn.skey, construct))
+                        if why:
+                            used_exc.add((fn.skey, construct))
+                            ctx.exception(rule, fn.skey, construct, why)
+                        else:
+                            ctx.violate(rule, fn, construct, "the %s carried by a Result handed to this function/closure is discarded by .%s()" % (e, name), pt=pt)
+            d = t["dest"]
+            if not d["p"] and re.search(r"::(flatten|flat_map)$", ck):
+                dty = fn.locals[d["l"]]
+                if re.search(r"Flatten<std::io::Lines<|Flatten<.*Result<", dty):
+                    n_sites += 1
+                    ctx.violate(rule, fn, "flatten(io::Lines)", "an iterator of io::Result items is flattened: every read error is dropped silently", pt=pt)
     for k, why in exceptions.items():
         if k not in used_exc:
             ctx.notes.append("%s: exception %s no longer matches any site" % (rule, k))
